@@ -929,7 +929,7 @@ func typeAssert(i *interpreter, instr *ssa.TypeAssert, itf iface) value {
 
 	if err != "" {
 		if !instr.CommaOk {
-			panic(err)
+			panic(targetRuntimeError(err))
 		}
 		return tuple{zero(instr.AssertedType), false}
 	}
@@ -1392,6 +1392,14 @@ func sliceToArrayPointer(t_dst, t_src types.Type, x value) value {
 // interface itype.
 // On success it returns "", on failure, an error message.
 func checkInterface(i *interpreter, itype *types.Interface, x iface) string {
+	if n, ok := x.t.(*types.Named); ok && n.Obj().Pkg() == reflectTypesPackage {
+		for k := 0; k < itype.NumMethods(); k++ {
+			if i.fakeMethod(n, itype.Method(k).Name()) == nil {
+				return fmt.Sprintf("interface conversion: %v is not %v: missing method %s", x.t, itype, itype.Method(k).Name())
+			}
+		}
+		return ""
+	}
 	if meth, _ := types.MissingMethod(x.t, itype, true); meth != nil {
 		return fmt.Sprintf("interface conversion: %v is not %v: missing method %s",
 			x.t, itype, meth.Name())
